@@ -1256,6 +1256,7 @@ struct Group {
 fn main() {
     // a stack overflow / abort in the code under test must become a verdict, not a dead check
     vcore::supervise("C13");
+    vcore::install_log_evaluation(); // logging is part of the environment: log arguments are evaluated as under a real subscriber
     let ctx = Ctx::from_args("C13", "fault_enumeration");
     let thorough = !ctx.quick();
 
